@@ -7,10 +7,12 @@ mod core;
 mod explore;
 mod world;
 mod fixture;
+mod fullworld;
 mod httpfake;
 mod refb;
 mod refwire;
 mod strings;
+mod c01;
 mod c03;
 mod c04;
 mod c05;
@@ -19,6 +21,8 @@ mod c07;
 mod c08;
 mod c09;
 mod c10;
+mod c11;
+mod c12;
 mod c13;
 mod c14;
 mod c15;
@@ -127,11 +131,30 @@ fn main() {
     core::install_panic_hook();
     core::cleanup_scratch();
     let ctx = Ctx::new(&id, tier, seed);
+    // watchdog: a run that exceeds three times its wall cap or 40 GiB is a machinery failure
+    {
+        let cap = ctx.wall_cap_s * 3.0 + 120.0;
+        let id = id.clone();
+        std::thread::spawn(move || {
+            let t0 = std::time::Instant::now();
+            loop {
+                std::thread::sleep(std::time::Duration::from_secs(2));
+                let rss_pages: u64 = std::fs::read_to_string("/proc/self/statm").ok().and_then(|s| s.split_whitespace().nth(1).and_then(|v| v.parse().ok())).unwrap_or(0);
+                let rss_gib = rss_pages as f64 * 4096.0 / (1u64 << 30) as f64;
+                if t0.elapsed().as_secs_f64() > cap || rss_gib > 40.0 {
+                    println!("MACHINERY-ERROR property={} watchdog: wall {:.0}s (cap {:.0}s), rss {:.1} GiB", id, t0.elapsed().as_secs_f64(), cap, rss_gib);
+                    core::cleanup_scratch();
+                    std::process::exit(2);
+                }
+            }
+        });
+    }
 
     if let Some(path) = replay {
         let text = std::fs::read_to_string(&path).expect("cannot read replay file");
         let v: serde_json::Value = serde_json::from_str(&text).expect("replay file is not JSON");
         let code = match id.as_str() {
+            "C01" => c01::replay(&ctx, &v["replay"]),
             "C03" => c03::replay(&ctx, &v["replay"]),
             "C04" => c04::replay(&ctx, &v["replay"]),
             "C05" => c05::replay(&ctx, &v["replay"]),
@@ -140,6 +163,8 @@ fn main() {
             "C08" => c08::replay(&ctx, &v["replay"]),
             "C09" => c09::replay(&ctx, &v["replay"]),
             "C10" => c10::replay(&ctx, &v["replay"]),
+            "C11" => c11::replay(&ctx, &v["replay"]),
+            "C12" => c12::replay(&ctx, &v["replay"]),
             "C13" => c13::replay(&ctx, &v["replay"]),
             "C14" => c14::replay(&ctx, &v["replay"]),
             "C15" => c15::replay(&ctx, &v["replay"]),
@@ -155,6 +180,7 @@ fn main() {
     }
 
     let run = || match id.as_str() {
+        "C01" => c01::run(&ctx),
         "C03" => c03::run(&ctx),
         "C04" => c04::run(&ctx),
         "C05" => c05::run(&ctx),
@@ -163,6 +189,8 @@ fn main() {
         "C08" => c08::run(&ctx),
         "C09" => c09::run(&ctx),
         "C10" => c10::run(&ctx),
+        "C11" => c11::run(&ctx),
+        "C12" => c12::run(&ctx),
         "C13" => c13::run(&ctx),
         "C14" => c14::run(&ctx),
         "C15" => c15::run(&ctx),
